@@ -472,6 +472,9 @@ def check_C10(v, tier, seed):
                                      "--per-case", str(per), "--no-openat2"])]
     concrete = run_oracle_cases(v, runs, oracle_clean_error, "an injected system-call failure did not yield a clean error")
     aftermath = aftermath_oracle(v, runs, concrete)
+    rf = Run("C10-reopen-fault", ["reopen-fault", "--seed", str(seed)])
+    nrf = reopen_fault_cases(v, rf, concrete)
+    runs.append(rf)
     broken = generic_tie(v, runs, concrete)
 
     def key(c):
@@ -487,6 +490,7 @@ def check_C10(v, tier, seed):
                    "call below the wrapper without entering the kernel; distinct = distinct tuples; non-trivial = at least 2 calls")
     cov["tie_mismatches"] = broken
     cov["aftermath"] = aftermath
+    cov["reopen_under_single_faults"] = nrf
     kinds, errnos, failed_calls = {}, {}, {}
     for r in runs:
         for c in r.cases:
@@ -882,6 +886,77 @@ def check_C07(v, tier, seed):
     return cov
 
 
+def oracle_reopen(c):
+    """C09: a successful reopen is a descriptor of the handle's inode with the requested mode and flags;
+    creation flags and symlink handles are refused.  Returns (message or None, 1 if the same inode was returned)."""
+    msg = None
+    same_inode = 0
+    flags = int(c.op[2])
+    creation = flags & (0o100 | 0o200) or (flags & 0o20200000) == 0o20200000
+    h = c.handle or {}
+    d = res_fd(c)
+    faulted = any(f[:1] != ["none"] for f in c.extra.get("fault", []))
+    if creation:
+        if c.res[:2] != ["err", "InvalidArgument"]:
+            msg = f"creation flags not refused: {' '.join(c.res[:4])}"
+        elif c.events:
+            msg = "system calls made although creation flags must be refused up front"
+    elif h.get("kind") == "l":
+        if c.res[:3] != ["err", "OsError", "40"] and not (faulted and c.res[:1] == ["err"]):
+            msg = f"reopen of a symlink handle did not fail with ELOOP: {' '.join(c.res[:4])}"
+    elif d is not None:
+        if d.get("label") != h.get("label") or d.get("kind") != h.get("kind"):
+            msg = f"reopen returned another object: handle {h.get('label')}/{h.get('kind')} result {d.get('label')}/{d.get('kind')}"
+        elif d.get("cloexec") != "1":
+            msg = "reopened descriptor is not close-on-exec"
+        else:
+            fl = int(d.get("fl", "0"))
+            if flags & 0o10000000:
+                if not fl & 0o10000000:
+                    msg = "O_PATH requested but not obtained"
+            elif (fl & 3) != (flags & 3):
+                msg = f"access mode differs: requested {flags & 3} got {fl & 3}"
+            for bit, name in ((0o2000, "O_APPEND"), (0o4000, "O_NONBLOCK"), (0o1000000, "O_NOATIME"), (0o200000, "O_DIRECTORY")):
+                if not msg and not (flags & 0o10000000) and bool(fl & bit) != bool(flags & bit):
+                    msg = f"status flag {name} differs: requested {bool(flags & bit)} got {bool(fl & bit)}"
+            if not msg:
+                same_inode = 1
+    return msg, same_inode
+
+
+def reopen_fault_cases(v, run, concrete):
+    """reopen under single injected faults: an error, or the handle's inode — never another object"""
+    n = 0
+    tolerated = [0]
+    for c in run.cases:
+        n += 1
+        msg, _ = oracle_reopen(c)
+        f0 = c.extra.get("fault", [["none"]])[0]
+        kv0 = dict(t.split("=", 1) for t in f0[1:] if "=" in t)
+        if msg and msg.startswith("reopen returned another object") and kv0.get("errno") in ("2", "22") \
+                and (res_fd(c) or {}).get("kind") == "l":
+            # ENOENT and EINVAL are the kernel's words for "no such file" and "not a symbolic link": the answers on which
+            # open_follow *by design* opens the path itself (no-follow).  An injected ENOENT/EINVAL in the readlink probe
+            # is, for the library, indistinguishable from that answer (like remove_all and an injected ENOENT), so the
+            # O_PATH handle to the link is the tolerated result; every other errno must surface as the error (F22).
+            tolerated[0] += 1
+            msg = None
+        if not msg and c.res[:1] == ["panic"]:
+            msg = "reopen panicked under an injected fault"
+        if not msg and c.fdt and c.fdt != ["same"]:
+            msg = "descriptor table changed across the call: " + " ".join(c.fdt)
+        if msg:
+            f = c.extra.get("fault", [["none"]])[0]
+            fkv = dict(t.split("=", 1) for t in f[1:] if "=" in t)
+            failed = c.events[int(fkv["at"])][0][0] if "at" in fkv and int(fkv["at"]) < len(c.events) else None
+            facts = case_facts(c)
+            facts.update({"kind": "oracle", "oracle": msg, "target": c.meta.get("target"), "fault": " ".join(f),
+                          "fault_errno": fkv.get("errno"), "failed_call": failed, "flags": c.op[2]})
+            v.fail(facts, case_replay(c, "reopen under an injected fault (" + " ".join(f) + "): " + msg))
+            concrete.add((run.name, c.id))
+    return {"cases": n, "tolerated_enoent_einval_in_the_probe": tolerated[0]}
+
+
 def check_C09(v, tier, seed):
     args = ["reopen", "--seed", str(seed)] + (["--thorough"] if tier == "thorough" else [])
     runs = [Run("C09-reopen", args), Run("C09-reopen-unshared", ["reopen-unshared"])]
@@ -901,35 +976,8 @@ def check_C09(v, tier, seed):
                 v.fail(facts, case_replay(c, msg))
                 concrete.add((r.name, c.id))
                 continue
-            flags = int(c.op[2])
-            creation = flags & (0o100 | 0o200) or (flags & 0o20200000) == 0o20200000
-            h = c.handle or {}
-            d = res_fd(c)
-            if creation:
-                if c.res[:2] != ["err", "InvalidArgument"]:
-                    msg = f"creation flags not refused: {' '.join(c.res[:4])}"
-                elif c.events:
-                    msg = "system calls made although creation flags must be refused up front"
-            elif h.get("kind") == "l":
-                if c.res[:3] != ["err", "OsError", "40"]:
-                    msg = f"reopen of a symlink handle did not fail with ELOOP: {' '.join(c.res[:4])}"
-            elif d is not None:
-                if d.get("label") != h.get("label") or d.get("kind") != h.get("kind"):
-                    msg = f"reopen returned another object: handle {h.get('label')}/{h.get('kind')} result {d.get('label')}/{d.get('kind')}"
-                elif d.get("cloexec") != "1":
-                    msg = "reopened descriptor is not close-on-exec"
-                else:
-                    fl = int(d.get("fl", "0"))
-                    if flags & 0o10000000:
-                        if not fl & 0o10000000:
-                            msg = "O_PATH requested but not obtained"
-                    elif (fl & 3) != (flags & 3):
-                        msg = f"access mode differs: requested {flags & 3} got {fl & 3}"
-                    for bit, name in ((0o2000, "O_APPEND"), (0o4000, "O_NONBLOCK"), (0o1000000, "O_NOATIME"), (0o200000, "O_DIRECTORY")):
-                        if not msg and not (flags & 0o10000000) and bool(fl & bit) != bool(flags & bit):
-                            msg = f"status flag {name} differs: requested {bool(flags & bit)} got {bool(fl & bit)}"
-                    if not msg:
-                        same_inode += 1
+            msg, same = oracle_reopen(c)
+            same_inode += same
             if msg:
                 facts = case_facts(c)
                 facts.update({"kind": "oracle", "oracle": msg, "fdnum": c.meta.get("fdnum"), "history": c.meta.get("history"),
@@ -959,9 +1007,13 @@ def check_C09(v, tier, seed):
                         facts.update({"kind": "oracle", "oracle": msg, "fdnum": c.meta.get("fdnum")})
                         v.fail(facts, case_replay(c, msg))
                         concrete.add((r.name, c.id))
+    rf = Run("C09-reopen-fault", ["reopen-fault", "--seed", str(seed)])
+    nrf = reopen_fault_cases(v, rf, concrete)
+    runs.append(rf)
     broken = generic_tie(v, runs, concrete)
     cov = coverage_of(runs, nontrivial=lambda c: True,
-                      key=lambda c: (tuple(sorted(c.meta.items())), tuple(c.op)))
+                      key=lambda c: (tuple(sorted(c.meta.items())), tuple(c.op), repr(c.extra.get("fault"))))
+    cov["reopen_under_single_faults"] = nrf
     cov["rule"] = ("handles to {file, dir, fifo, socket, symlink (nofollow), file through a link} x forced descriptor numbers "
                    "{0,1,2,3,...,1023} (dup3) x history applied to the handle's path between resolve and reopen "
                    "{none, rename, replace by another file, unlink} x flag set; oracle: (st_dev, st_ino), access mode, status flags "
